@@ -7,7 +7,7 @@ GO_RUNS = [
 RUN_MODULE = "Run_C17"
 COQ_TARGETS = ["Corr/Run_C17.vo", "Proofs/BufferedProofs.vo", "Proofs/SweepProofs.vo", "Proofs/KeyspaceBase.vo",
                "Proofs/KeyspaceProofs.vo", "Proofs/KeyspaceTrie.vo"]
-N = {"quick": 200, "thorough": 2000}
+N = {"quick": 400, "thorough": 2000}
 GO_TIMEOUT = {"quick": 600, "thorough": 3000}
 RULE = ("three kinds of cases. (1) buffered: the real buffered wrapper (batch sizes 1..1024) over a recording wrapped provider "
         "(4 of 5 cases) or over the real SweepingProvider with a recording message sender (1 of 5); the worker is parked inside a "
@@ -62,6 +62,8 @@ def classify(desc, code):
         m = desc.get("misrouted", 0)
         if m > 0 and m == desc.get("misrouted_explained_by_alloc_depth", -1):
             return "region-peers-subtrie-allocation-depth-mismatch"
+        if m == 0 and code == 25:
+            return "max-reprovide-delay-not-enforced-on-region-merge"
         # fixed scenario 1: a missed cycle with every message correctly routed
         if m == 0 and code == 22 and desc.get("scenario") == "individual-broader-prefix":
             return "individual-reprovide-reschedules-broader-prefix"
